@@ -18,9 +18,9 @@ Proof.
 Qed.
 
 Lemma partition_final : forall (isvideo : N -> bool) (hdr : list N -> res N) (nalus : list (list N)),
-  wf_nalus nalus = true ->
+  nalus <> [] ->
   lenN (frames nalus) < 4294967296 ->
-  exists r, protect_ranges isvideo hdr Cenc (frames nalus) = Ok r /\
+  exists r, protect_ranges_r isvideo hdr Cenc (frames nalus) = Ok r /\
             sumN (map (fun p => ss_clear p + ss_prot p) r) = lenN (frames nalus) /\
             Forall (fun p => ss_clear p < 65536 /\ ss_prot p mod 16 = 0) r.
 Proof.
@@ -30,9 +30,9 @@ Proof.
 Qed.
 
 Lemma cenc_shape_final : forall (isvideo : N -> bool) (hdr : list N -> res N) (nalus : list (list N)),
-  wf_nalus nalus = true ->
+  nalus <> [] ->
   lenN (frames nalus) < 4294967296 ->
-  (exists r, protect_ranges isvideo hdr Cenc (frames nalus) = Ok r /\
+  (exists r, protect_ranges_r isvideo hdr Cenc (frames nalus) = Ok r /\
              expand r = spec_mask isvideo (fun n => prot_cenc (lenN n)) nalus) /\
   (forall L, (0 < prot_cenc L <-> 112 <= L + 4) /\
              prot_cenc L mod 16 = 0 /\
@@ -47,10 +47,10 @@ Qed.
 
 Lemma cbcs_shape_final : forall (isvideo : N -> bool) (hdr : list N -> res N) (hs : list N -> N)
                                 (nalus : list (list N)),
-  wf_nalus nalus = true ->
+  wf_nalus_cbcs nalus = true ->
   lenN (frames nalus) < 4294967296 ->
   (forall n, In n nalus -> first_is_video isvideo n = true -> hdr n = Ok (hs n) /\ hs n <= lenN n) ->
-  exists r, protect_ranges isvideo hdr Cbcs (frames nalus) = Ok r /\
+  exists r, protect_ranges_r isvideo hdr Cbcs (frames nalus) = Ok r /\
             expand r = spec_mask isvideo (fun n => lenN n - hs n) nalus /\
             sumN (map (fun p => ss_clear p + ss_prot p) r) = lenN (frames nalus) /\
             Forall (fun p => ss_clear p < 65536) r.
